@@ -26,7 +26,9 @@ Inductive event :=
 | EvSeal                                (* Seal + Release *)
 | EvActiveSuicide                       (* retention on a fraction that is still active *)
 | EvSealedSuicide                       (* retention on a sealed fraction *)
-| EvLoad (nonlast : bool).              (* what a starting process does to the fraction *)
+| EvLoad (nonlast : bool)               (* what a starting process does to the fraction *)
+| EvSealEvict.                          (* retention pushes the fraction out while it is being sealed (or released):
+                                           Seal, then Release and Sealed.Suicide in some interleaving *)
 
 Definition prog_of (sorted hasdata : bool) (ev : event) (s : fs) : option (list pop) :=
   match ev with
@@ -35,10 +37,40 @@ Definition prog_of (sorted hasdata : bool) (ev : event) (s : fs) : option (list 
   | EvActiveSuicide => Some active_suicide_prog
   | EvSealedSuicide => Some sealed_suicide_prog
   | EvLoad nonlast => option_map fst (load_prog sorted hasdata nonlast s)
+  | EvSealEvict => None   (* not one program: see ops_agree *)
+  end.
+
+(* obs is the visible part of some interleaving of the programs p and q started in s *)
+Fixpoint interleaves (fuel : nat) (p q : list pop) (s : fs) (obs : list xop) : bool :=
+  match fuel with
+  | 0 => false
+  | S f =>
+      let try_ (o : pop) (p' q' : list pop) :=
+        let '(x, s') := step_pop o s in
+        match x with
+        | None => interleaves f p' q' s' obs
+        | Some x => match obs with
+                    | y :: obs' => xop_eqb x y && interleaves f p' q' s' obs'
+                    | [] => false
+                    end
+        end in
+      match p, q with
+      | [], [] => match obs with [] => true | _ => false end
+      | o :: p', [] => try_ o p' []
+      | [], o :: q' => try_ o [] q'
+      | o1 :: p', o2 :: q' => try_ o1 p' q || try_ o2 p q'
+      end
+  end.
+
+Fixpoint strip_prefix (xs obs : list xop) : option (list xop) :=
+  match xs, obs with
+  | [], _ => Some obs
+  | x :: xs', y :: obs' => if xop_eqb x y then strip_prefix xs' obs' else None
+  | _ :: _, [] => None
   end.
 
 Definition is_suicide (ev : event) : bool :=
-  match ev with EvActiveSuicide | EvSealedSuicide => true | _ => false end.
+  match ev with EvActiveSuicide | EvSealedSuicide | EvSealEvict => true | _ => false end.
 
 (* every crash point of an observed operation sequence is a safe state *)
 Fixpoint prefixes_safe (sorted hasdata doomed : bool) (s : fs) (ops : list xop) : bool :=
@@ -102,6 +134,12 @@ Definition nat_list_eqb := list_eqb Nat.eqb.
 
 Definition case_agrees (c : case) : bool :=
   match c with
+  | COps EvSealEvict sorted _ _ before impl =>
+      let '(xs, s1) := exec (seal_prog sorted) (fs_of before) in
+      match strip_prefix xs impl with
+      | Some rest => interleaves 20 (release_prog sorted) sealed_suicide_prog s1 rest
+      | None => false
+      end
   | COps ev sorted hasdata _ before impl =>
       match prog_of sorted hasdata ev (fs_of before) with
       | Some p => list_eqb xop_eqb (fst (exec p (fs_of before))) impl
